@@ -27,6 +27,7 @@ ASSUMPTIONS = [
 ]
 PRE_LEAN = C.s2_trace_tensors   # S2: tensors.py kernels re-traced on every run
 EXTRA_LEAN_MODULES = ("Bridge.TensorsRotate",)
+JIT_TWIN = ('voigt',)   # groups of harness/jittwin.py: the numba-compiled code is run on the same battery and compared
 TRUSTED = ["numpy einsum + an independent Voigt index table as the reference for the weighted sum of rotated tensors"]
 
 VOIGT = {(0, 0): 0, (1, 1): 1, (2, 2): 2, (1, 2): 3, (2, 1): 3, (0, 2): 4, (2, 0): 4, (0, 1): 5, (1, 0): 5}
